@@ -145,8 +145,8 @@ macro_rules! alloc_batch_step {
             }
 
             kani::cover!(true, "reached end");
-            kani::cover!(probe_live_before, "probe was live");
-            kani::cover!(returned, "probe is one of the returned identifiers");
+            kani::cover!(probe_live_before || N == F, "probe was live");
+            kani::cover!(returned || K == 0, "probe is one of the returned identifiers");
         }
     };
 }
@@ -162,3 +162,272 @@ alloc_batch_step!(allocb_q_n3_f2_k1, 3, 2, 1);
 alloc_batch_step!(allocb_t_n3_f2_k2, 3, 2, 2);
 alloc_batch_step!(allocb_t_n3_f2_k3, 3, 2, 3);
 alloc_batch_step!(allocb_t_n3_f3_k1, 3, 3, 1);
+
+alloc_batch_step!(allocb_t_n4_f4_k3, 4, 4, 3);
+alloc_batch_step!(allocb_t_n4_f2_k3, 4, 2, 3);
+alloc_batch_step!(allocb_t_n4_f3_k0, 4, 3, 0);
+
+// ------------------------------------------------------------------------------------------
+// allocate (single): World::insert's allocator half.
+// ------------------------------------------------------------------------------------------
+
+macro_rules! alloc_one_step {
+    ($name:ident, $N:expr, $F:expr) => {
+        #[kani::proof]
+        #[kani::unwind(8)]
+        pub fn $name() {
+            const N: usize = $N;
+            const F: usize = $F;
+            let id0 = ident::<RAB>(vec![3]);
+            let id1 = ident::<RAB>(vec![1]);
+            // SAFETY: the buffers outlive every use of the references below.
+            let refs = unsafe { [id0.as_ref(), id1.as_ref()] };
+            let (mut a, free) = any_allocator::<RAB, N, F>(&refs);
+            let before = snap_alloc::<RAB, N>(&a);
+            let row: usize = kani::any();
+
+            let probe = entity::Identifier::new(kani::any(), kani::any());
+            let probe_loc_before = a.get(probe);
+
+            let id = a.allocate(Location::new(refs[1], row));
+
+            if F > 0 {
+                vassert!(id.index == free[0], "reuse takes the front of the free list");
+                let mut i = 0;
+                while i < N {
+                    if i == free[0] {
+                        vassert!(
+                            id.generation == before[i].generation + 1,
+                            "reused slot gets a generation above every issued one"
+                        );
+                    }
+                    i += 1;
+                }
+                vassert!(a.slots.len() == N, "no new slot while a free one exists");
+                vassert!(a.free.len() == F - 1, "exactly one free slot consumed");
+                let mut j = 0;
+                while j + 1 < F {
+                    vassert!(a.free[j] == free[j + 1], "free-list order preserved");
+                    j += 1;
+                }
+            } else {
+                vassert!(id.index == N && id.generation == 0, "fresh slot appended at generation 0");
+                vassert!(a.slots.len() == N + 1, "slot table grows by one");
+                vassert!(a.free.len() == 0, "free list still empty");
+            }
+            match a.get(id) {
+                Some(l) => vassert!(
+                    l.index == row && l.identifier.verif_pointer() == refs[1].verif_pointer(),
+                    "returned identifier resolves to the given location"
+                ),
+                None => vassert!(false, "returned identifier must resolve"),
+            }
+            vassert!(a.is_active(id), "returned identifier is active");
+            vassert!(alloc_inv(&a), "AllocInv after allocate");
+
+            let mut i = 0;
+            while i < N {
+                if !(F > 0 && in_prefix(&free, 1, i)) {
+                    let s = snap_slot(&a.slots[i]);
+                    vassert!(
+                        s.generation == before[i].generation
+                            && s.active == before[i].active
+                            && s.loc_ptr == before[i].loc_ptr
+                            && s.loc_index == before[i].loc_index,
+                        "frame: other slots untouched"
+                    );
+                }
+                i += 1;
+            }
+
+            let probe_loc_after = a.get(probe);
+            vassert!(
+                a.is_active(probe) == probe_loc_after.is_some(),
+                "get and is_active agree (post)"
+            );
+            if let Some(l0) = probe_loc_before {
+                vassert!(probe != id, "a live identifier is never issued again");
+                match probe_loc_after {
+                    Some(l1) => vassert!(
+                        l1.index == l0.index
+                            && l1.identifier.verif_pointer() == l0.identifier.verif_pointer(),
+                        "live identifier keeps resolving to the same place"
+                    ),
+                    None => vassert!(false, "live identifier stopped resolving"),
+                }
+            } else if probe != id {
+                vassert!(probe_loc_after.is_none(), "dead/never-issued identifier stays dead");
+            }
+            kani::cover!(true, "reached end");
+            kani::cover!(probe_loc_before.is_some() || N == F, "probe was live");
+            kani::cover!(probe == id, "probe is the returned identifier");
+        }
+    };
+}
+
+alloc_one_step!(alloc1_q_n0_f0, 0, 0);
+alloc_one_step!(alloc1_q_n2_f0, 2, 0);
+alloc_one_step!(alloc1_q_n3_f2, 3, 2);
+alloc_one_step!(alloc1_t_n3_f1, 3, 1);
+alloc_one_step!(alloc1_t_n3_f3, 3, 3);
+alloc_one_step!(alloc1_t_n4_f2, 4, 2);
+
+// ------------------------------------------------------------------------------------------
+// free_unchecked: World::remove's allocator half.  Target: any *live* identifier.
+// ------------------------------------------------------------------------------------------
+
+macro_rules! alloc_free_step {
+    ($name:ident, $N:expr, $F:expr) => {
+        #[kani::proof]
+        #[kani::unwind(8)]
+        pub fn $name() {
+            const N: usize = $N;
+            const F: usize = $F;
+            let id0 = ident::<RAB>(vec![3]);
+            let id1 = ident::<RAB>(vec![1]);
+            // SAFETY: the buffers outlive every use of the references below.
+            let refs = unsafe { [id0.as_ref(), id1.as_ref()] };
+            let (mut a, free) = any_allocator::<RAB, N, F>(&refs);
+            let before = snap_alloc::<RAB, N>(&a);
+
+            let target = entity::Identifier::new(kani::any(), kani::any());
+            kani::assume(a.is_active(target)); // documented precondition of free_unchecked
+            let probe = entity::Identifier::new(kani::any(), kani::any());
+            let probe_loc_before = a.get(probe);
+
+            // SAFETY: target is live.
+            unsafe { a.free_unchecked(target) };
+
+            vassert!(a.get(target).is_none() && !a.is_active(target), "freed identifier is dead");
+            vassert!(a.slots.len() == N, "slots are never removed");
+            vassert!(a.free.len() == F + 1, "exactly one slot released");
+            vassert!(a.free[F] == target.index, "released slot goes to the back of the free list");
+            let mut j = 0;
+            while j < F {
+                vassert!(a.free[j] == free[j], "older free entries keep their order");
+                j += 1;
+            }
+            vassert!(alloc_inv(&a), "AllocInv after free_unchecked");
+            let mut i = 0;
+            while i < N {
+                let s = snap_slot(&a.slots[i]);
+                vassert!(s.generation == before[i].generation, "generations change only on activation");
+                if i != target.index {
+                    vassert!(
+                        s.active == before[i].active
+                            && s.loc_ptr == before[i].loc_ptr
+                            && s.loc_index == before[i].loc_index,
+                        "frame: other slots untouched"
+                    );
+                }
+                i += 1;
+            }
+            let probe_loc_after = a.get(probe);
+            if probe == target {
+                vassert!(probe_loc_after.is_none(), "target is dead");
+            } else if let Some(l0) = probe_loc_before {
+                match probe_loc_after {
+                    Some(l1) => vassert!(
+                        l1.index == l0.index
+                            && l1.identifier.verif_pointer() == l0.identifier.verif_pointer(),
+                        "other live identifiers keep resolving"
+                    ),
+                    None => vassert!(false, "another live identifier stopped resolving"),
+                }
+            } else {
+                vassert!(probe_loc_after.is_none(), "dead identifiers stay dead");
+            }
+            kani::cover!(true, "reached end");
+            kani::cover!(probe_loc_before.is_some() && probe != target || N - F < 2, "another live probe");
+        }
+    };
+}
+
+alloc_free_step!(allocf_q_n1_f0, 1, 0);
+alloc_free_step!(allocf_q_n3_f1, 3, 1);
+alloc_free_step!(allocf_t_n3_f2, 3, 2);
+alloc_free_step!(allocf_t_n4_f0, 4, 0);
+alloc_free_step!(allocf_t_n4_f2, 4, 2);
+
+// ------------------------------------------------------------------------------------------
+// Location updates and lookups against the snapshot model.
+// ------------------------------------------------------------------------------------------
+
+macro_rules! alloc_modify_step {
+    ($name:ident, $N:expr, $F:expr) => {
+        #[kani::proof]
+        #[kani::unwind(8)]
+        pub fn $name() {
+            const N: usize = $N;
+            const F: usize = $F;
+            let id0 = ident::<RAB>(vec![3]);
+            let id1 = ident::<RAB>(vec![1]);
+            // SAFETY: the buffers outlive every use of the references below.
+            let refs = unsafe { [id0.as_ref(), id1.as_ref()] };
+            let (mut a, _free) = any_allocator::<RAB, N, F>(&refs);
+            let before = snap_alloc::<RAB, N>(&a);
+
+            // lookups = model
+            let probe = entity::Identifier::new(kani::any(), kani::any());
+            let mut model_live = false;
+            let mut i = 0;
+            while i < N {
+                if probe.index == i && before[i].active && before[i].generation == probe.generation {
+                    model_live = true;
+                    match a.get(probe) {
+                        Some(l) => vassert!(
+                            l.index == before[i].loc_index && l.identifier.verif_pointer() == before[i].loc_ptr,
+                            "get returns the slot's own location"
+                        ),
+                        None => vassert!(false, "get misses a live identifier"),
+                    }
+                }
+                i += 1;
+            }
+            vassert!(a.is_active(probe) == model_live, "is_active = model");
+            vassert!(a.get(probe).is_some() == model_live, "get = model");
+
+            let target = entity::Identifier::new(kani::any(), kani::any());
+            kani::assume(a.is_active(target));
+            let new_index: usize = kani::any();
+            let whole: bool = kani::any();
+            if whole {
+                // SAFETY: target is live.
+                unsafe { a.modify_location_unchecked(target, Location::new(refs[0], new_index)) };
+            } else {
+                // SAFETY: target is live.
+                unsafe { a.modify_location_index_unchecked(target, new_index) };
+            }
+            let mut i = 0;
+            while i < N {
+                let s = snap_slot(&a.slots[i]);
+                if i == target.index {
+                    vassert!(s.active && s.generation == before[i].generation, "target stays live, same generation");
+                    vassert!(s.loc_index == new_index, "target row updated");
+                    if whole {
+                        vassert!(s.loc_ptr == refs[0].verif_pointer(), "target archetype updated");
+                    } else {
+                        vassert!(s.loc_ptr == before[i].loc_ptr, "index-only update keeps the archetype");
+                    }
+                } else {
+                    vassert!(
+                        s.generation == before[i].generation
+                            && s.active == before[i].active
+                            && s.loc_ptr == before[i].loc_ptr
+                            && s.loc_index == before[i].loc_index,
+                        "frame: other slots untouched"
+                    );
+                }
+                i += 1;
+            }
+            vassert!(alloc_inv(&a), "AllocInv after location update");
+            kani::cover!(whole, "whole-location update");
+            kani::cover!(!whole, "index-only update");
+            kani::cover!(model_live, "probe live");
+            kani::cover!(!model_live && probe.index < N, "probe stale or inactive");
+        }
+    };
+}
+
+alloc_modify_step!(allocm_q_n3_f1, 3, 1);
+alloc_modify_step!(allocm_t_n4_f2, 4, 2);
